@@ -61,12 +61,8 @@ def ciVariantParentArch2 (o : Obj) : Except Err Unit :=
         | .ok false => .error .valueError
         | .error e => .error e) (.ok ())
 
-/-- composeinfo `Variant._validate_uid`: a non-string uid under a parent differs from every formatted string -/
-def ciVariantUid2 (o : Obj) : Except Err Unit :=
-  match o.get c!"parent", o.get c!"uid" with
-  | .none, _ => ciVariantUid o
-  | _, .str _ => ciVariantUid o
-  | _, _ => .error .valueError
+/-- composeinfo `Variant._validate_uid`: since the F23 repair the type of `uid` is asserted first, in `ciVariantUid` itself -/
+def ciVariantUid2 (o : Obj) : Except Err Unit := ciVariantUid o
 
 /-- treeinfo `Variant._validate_uid`, same refinement -/
 def tiVariantUid2 (o : Obj) : Except Err Unit :=
